@@ -15,7 +15,7 @@ STUBS = ['controller processes, creator process, the timer callback (brackets it
 ASSUMPTIONS = ['restart() after stop() and restart() of an expired one-shot timer outside its callback are unspecified: '
                'afterwards only "nothing raises" is demanded for that timer',
                'timeouts are chosen so that t0 + timeout > t0 in floating point']
-PROBES = ['restart_from_callback', 'stop_from_callback', 'stop_at_expiry_instant_before_firing',
+PROBES = ['drained_to_the_end_of_time', 'restart_from_callback', 'stop_from_callback', 'stop_at_expiry_instant_before_firing',
           'op_at_expiry_instant_after_firing', 'two_restarts_one_instant', 'nasty_expiry', 'auto_restart_fired_ge3',
           'scalar_args', 'kwargs', 'restart_pending', 'stop_pending']
 
@@ -37,6 +37,10 @@ def gen(rng, tier):
         # a clock so large that small timeouts are below its resolution (epoch seconds and 100 ns)
         poolname, t0 = 'ABSORB', 1.7e9
         pool = [1e-7, 1e-8, 0.5, 1, 2]
+    elif r0 < 0.17:
+        # timeouts so large that a doubled one overflows to infinity ("never"): such a timer never fires and the run ends
+        poolname, t0 = 'OVERFLOW', rng.choice([0, 5])
+        pool = [1e308, float('inf'), 1, 2, 1e308]
     nt = rng.choice([1, 1, 2])
     timers = []
     for k in range(nt):
@@ -204,6 +208,23 @@ def run(case):
             w.rec('ERR', san(e))
         n += 1
     viol, stats, nontrivial = check(w, case, H)
+    if case.get('pool') == 'OVERFLOW' and not any(t.get('auto') for t in case.get('timers', [])):
+        # nothing periodic: the run must come to an end, also at the end of time
+        stats['drained_to_the_end_of_time'] = 1
+        m = 0
+        while m < 5000:
+            try:
+                env.step()
+            except EmptySchedule:
+                break
+            except StopSimulation:
+                pass
+            except Exception as e:
+                viol.append(('C19.4', 'the run raised %r' % (san(e),)))
+                break
+            m += 1
+        if m >= 5000:
+            viol.append(('C19.4', 'the timers keep the simulation alive for ever (5000 further steps, now=%r)' % (env.now,)))
     res = {'viol': viol, 'digest': digest_of(env.log), 'nontrivial': nontrivial, 'stats': stats,
            'simtime': float(env.now) - float(case.get('t0', 0)), 'steps': n}
     if case.get('_excerpt'):
